@@ -137,17 +137,19 @@ class HexFile:
         self.check()
 
     def check(self):
+        """Sort the regions, merge adjacent regions and detect overlap"""
         self.regions.sort(key=lambda r: r.address)
-        change = True
-        while change and len(self.regions) > 1:
-            change = False
-            for r1, r2 in zip(self.regions[:-1], self.regions[1:]):
-                if r1.end_address == r2.address:
-                    r1.add_data(r2.data)
-                    self.regions.remove(r2)
-                    change = True
-                elif r1.end_address > r2.address:
+        merged = []
+        for region in self.regions:
+            if merged:
+                last = merged[-1]
+                if last.end_address == region.address:
+                    last.add_data(region.data)
+                    continue
+                elif last.end_address > region.address:
                     raise HexFileException("Overlapping regions")
+            merged.append(region)
+        self.regions = merged
 
     def merge(self, other):
         for region in other.regions:
@@ -175,6 +177,10 @@ class HexFile:
                     address -= 0x10000
                 self.write_hex_line(HexLine(address, DATA, chunk))
                 address += len(chunk)
+        if self.start_address:
+            self.write_hex_line(
+                HexLine(0, STARTADDR, struct.pack(">I", self.start_address))
+            )
         self.write_hex_line(HexLine(0, EOF))
 
 
